@@ -165,6 +165,12 @@ def only_via_edge(body, target_bb, edge):
     return target_bb not in body.reachable(0, avoid_edges=[edge])
 
 
+def only_via_edge_threaded(body, target_bb, edge):
+    """like only_via_edge, but following constant-assigned bool flags (a decision taken on `edge` and acted upon later
+    through `if flag`)"""
+    return target_bb not in body.reachable_threaded(0, avoid_edges=[edge])
+
+
 def blocks_constructing(body, adt, variant=None):
     """blocks containing an aggregate construction of adt[::variant]"""
     out = []
